@@ -141,6 +141,12 @@ impl Monitor for C09 {
             // solve the first problem again at the end: everything it needs was asked for before
             problems.push(p.clone());
         }
+        // one case in 250: the same universe with ids spread over a huge range
+        if r.chance(1, 250) && !crate::report::small() {
+            let perms = gener::huge_perms(&u, r);
+            let (u, problems) = gener::renumber_all(&u, &problems, &perms);
+            return C09Case { family: format!("{name}+huge-ids"), u, problems, opts };
+        }
         C09Case { family: name.into(), u, problems, opts }
     }
     fn check(&self, c: &C09Case, ctx: &mut Ctx) {
